@@ -11,6 +11,7 @@ def build(tier):
     procs, special = steps.special_names()
     obs += steps.step_obligations('C05.d', ['@other'] + [p for p in procs if p in ('generic_command',)], tier, 0, 0, symargs=False)
     obs += steps.step_obligations('C05.d', ['function', 'set', 'cpp_member', 'ct_add_test', 'add_test', 'option', 'cmake_parse_arguments', 'endfunction', 'cpp_class', 'cpp_end_class', 'macro', 'cpp_attr'], tier, 1, 1, symargs=True)
+    obs.append(e2obs.ob_valid_witnesses('C05', big=not quick_(tier)))
     if not quick_(tier):
         obs.append(e2obs.ob_corpus())
     return dict(obligations=obs, explanation="x", assumptions=[])
